@@ -97,6 +97,7 @@ pub fn record_bot(opts: &Opts) -> i32 {
     let tags = opts.str("tags", "");
     let mut out = std::io::BufWriter::new(std::fs::File::create(opts.str("out", "bot.ndjson")).unwrap());
     let mut rng = rng(seed, 1500 + shard);
+    set_pending_file(Some(format!("{}.pending", opts.str("out", "bot.ndjson"))));
     let path = plugin_path();
     let api = match chess_api::ChessApiRef::load_from_file(&path) {
         Ok(a) => a,
@@ -109,6 +110,10 @@ pub fn record_bot(opts: &Opts) -> i32 {
         return record_match(opts, &api, &roots);
     }
     let mut engine = api.new_engine();
+    // the move the plugin proposed last, and whether the board was set since (a client may submit a
+    // proposal made for another position)
+    let mut last_prop: Option<ChessMove> = None;
+    let mut after_set = false;
     let sel: Vec<&Value> = roots.as_array().unwrap().iter()
         .filter(|r| tags.is_empty() || r["tags"].as_array().unwrap().iter().any(|x| tags.split(',').any(|s| x == s)))
         .collect();
@@ -126,6 +131,7 @@ pub fn record_bot(opts: &Opts) -> i32 {
         let Ok(root) = fen.parse::<Board>() else { continue };
         op!("record-bot set_board {fen}");
         engine.set_board(root);
+        after_set = true;
         writeln!(out, "{}", json!({"ev": "set_board", "arg": pos_json(&root), "board": pos_json(&engine.board())})).unwrap();
         events += 1;
         let mut prev: Vec<ChessMove> = vec![];
@@ -142,7 +148,11 @@ pub fn record_bot(opts: &Opts) -> i32 {
             // choose a move: an illegal attempt, the inverse of an earlier move (to repeat
             // positions), a quiet piece move, or any legal move
             let roll = rng.gen_range(0..100);
-            let c = if mode != "long" && roll < 8 {
+            let stale = mode != "long" && last_prop.is_some() && ((after_set && rng.gen_bool(0.5)) || roll < 2);
+            after_set = false;
+            let c = if stale {
+                code(last_prop.unwrap())
+            } else if mode != "long" && roll < 8 {
                 rng.gen_range(0..20480u32)
             } else if mode == "long" {
                 // knights out and back: g1f3 g8f6 f3g1 f6g8 ... (the same four plies for ever)
@@ -177,12 +187,17 @@ pub fn record_bot(opts: &Opts) -> i32 {
             // the plugin aborts the process if it panics (FFI boundary): keep the trace on disk
             out.flush().unwrap();
             events += 1;
+            let mut after_eval = false;
             if mode != "long" && rng.gen_range(0..40) == 0 {
+                after_eval = true;
                 // evaluate under a counting limit: the proposal must be legal, the board unchanged
                 let k = rng.gen_range(0..400);
                 op!("record-bot evaluate k={k} on {}", engine.board());
                 let t = CountingTimeout::at(k);
                 let (mv, sc) = engine.evaluate(&t);
+                if mv.is_some() {
+                    last_prop = mv;
+                }
                 calls += 1;
                 writeln!(out, "{}", json!({"ev": "evaluate", "k": k, "mv": mv.map_or(-1i64, |m| code(m) as i64), "score": score_json(sc),
                                            "board": pos_json(&engine.board())})).unwrap();
@@ -198,6 +213,27 @@ pub fn record_bot(opts: &Opts) -> i32 {
                 writeln!(out, "{}", json!({"ev": "evaluate", "k": 200, "mv": mv.map_or(-1i64, |m| code(m) as i64), "score": score_json(sc),
                                            "board": pos_json(&engine.board())})).unwrap();
                 events += 1;
+            }
+            if mode != "long" && after_eval && rng.gen_range(0..3) == 0 {
+                // a client that asks for a proposal, then sets up another position and submits the
+                // proposal there: it must be judged in the position the plugin now holds
+                let r2 = sel[rng.gen_range(0..sel.len())];
+                if let (Ok(other), Some(mv)) = (r2["fen"].as_str().unwrap().parse::<Board>(), last_prop) {
+                    op!("record-bot set_board (another position after a proposal) {other}");
+                    engine.set_board(other);
+                    prev.clear();
+                    writeln!(out, "{}", json!({"ev": "set_board", "arg": pos_json(&other), "board": pos_json(&engine.board())})).unwrap();
+                    op!("record-bot make_move {mv} (proposed for another position) on {other}");
+                    let res = engine.make_move(mv);
+                    calls += 1;
+                    if res.is_valid {
+                        prev.push(mv);
+                    }
+                    writeln!(out, "{}", json!({"ev": "make_move", "mv": code(mv), "valid": res.is_valid, "flag": res.is_three_fold_draw,
+                                               "board": pos_json(&engine.board())})).unwrap();
+                    out.flush().unwrap();
+                    events += 2;
+                }
             }
             if mode != "long" && rng.gen_range(0..30) == 0 {
                 // set the board again in the middle of a history: to the very position the plugin
@@ -217,6 +253,7 @@ pub fn record_bot(opts: &Opts) -> i32 {
                 };
                 op!("record-bot set_board (again) {arg}");
                 engine.set_board(arg);
+                after_set = true;
                 prev.clear();
                 writeln!(out, "{}", json!({"ev": "set_board", "arg": pos_json(&arg), "board": pos_json(&engine.board())})).unwrap();
                 events += 1;
@@ -233,6 +270,7 @@ pub fn record_bot(opts: &Opts) -> i32 {
         }
     }
     out.flush().unwrap();
+    op!("done");
     out_line("SUMMARY", &json!({"counts": {"events": events, "calls": calls, "flags_raised": flags}, "distinct": calls, "nontrivial": flags,
                                 "mismatches": 0, "samples": [], "extra": {}}));
     0
@@ -341,6 +379,7 @@ fn record_match(opts: &Opts, api: &chess_api::ChessApiRef, roots: &Value) -> i32
         }
     }
     out.flush().unwrap();
+    op!("done");
     out_line("SUMMARY", &json!({"counts": {"events": events, "calls": calls, "flags_raised": flags, "games": games, "mates": mates, "draws": draws},
                                 "distinct": calls, "nontrivial": flags + mates + draws, "mismatches": 0, "samples": [], "extra": {}}));
     0
